@@ -18,10 +18,12 @@
 (*   status  "running" | "finished" | "ValueError" | "overelected"            *)
 (*   stage   "cut" (TopTwo/Alaska before the plurality cut) | "main"          *)
 (*   plabel  exact probability of the last step given its pre-state           *)
+(*   vorder  PluralityVeto only: the voters (unit ballots, as rankings) in the *)
+(*           order in which they will be asked for their veto (<<>> otherwise) *)
 EXTENDS Pairwise, TLC
 
-VARIABLES cfg, cands, prof0, sprof0, scands, prof, cur, thr, rounds, status, stage, plabel
-vars == <<cfg, cands, prof0, sprof0, scands, prof, cur, thr, rounds, status, stage, plabel>>
+VARIABLES cfg, cands, prof0, sprof0, scands, prof, cur, thr, rounds, status, stage, plabel, vorder
+vars == <<cfg, cands, prof0, sprof0, scands, prof, cur, thr, rounds, status, stage, plabel, vorder>>
 
 STVFamily  == {"STV", "IRV", "SequentialRCV"}
 OneShot    == {"Plurality", "SNTV", "Borda"}
@@ -95,14 +97,14 @@ ElectSimul ==
           /\ prof' = o[1] /\ cur' = cur \ W /\ plabel' = o[2]
           /\ rounds' = Append(rounds, TallyRound(el, <<>>, {}, o[1], cur \ W))
   /\ status' = AfterElect
-  /\ UNCHANGED <<cfg, cands, prof0, sprof0, scands, thr, stage>>
+  /\ UNCHANGED <<vorder, cfg, cands, prof0, sprof0, scands, thr, stage>>
 
 ElectOne ==
   /\ STVStage /\ ~cfg.simul /\ Above # {}
   /\ LET T == Standing[1] IN
        IF Cardinality(T) > 1 /\ cfg.tb = "none"
        THEN /\ status' = "ValueError" /\ plabel' = R(1)
-            /\ UNCHANGED <<cfg, cands, prof0, sprof0, scands, prof, cur, thr, rounds, stage>>
+            /\ UNCHANGED <<vorder, cfg, cands, prof0, sprof0, scands, prof, cur, thr, rounds, stage>>
        ELSE LET sc == TbScore(cfg.tb, prof, cur) IN
             \E ord \in Resolutions(T, cfg.tb, sc) :
             /\ LET w   == ord[1]
@@ -112,14 +114,14 @@ ElectOne ==
                     /\ plabel' = RMul(o[2], IF Cardinality(T) > 1 THEN TieProb(T, cfg.tb, sc) ELSE R(1))
                     /\ rounds' = Append(rounds, TallyRound(<<{w}>>, <<>>, tbs, o[1], cur \ {w}))
             /\ status' = AfterElect
-            /\ UNCHANGED <<cfg, cands, prof0, sprof0, scands, thr, stage>>
+            /\ UNCHANGED <<vorder, cfg, cands, prof0, sprof0, scands, thr, stage>>
 
 DefaultElect ==
   /\ STVStage /\ Above = {} /\ Cardinality(cur) = SeatsLeft
   /\ prof' = NoBallots /\ cur' = {} /\ plabel' = R(1)
   /\ rounds' = Append(rounds, Round(Standing, <<>>, <<>>, {}, <<>>, NoBallots))
   /\ status' = AfterElect
-  /\ UNCHANGED <<cfg, cands, prof0, sprof0, scands, thr, stage>>
+  /\ UNCHANGED <<vorder, cfg, cands, prof0, sprof0, scands, thr, stage>>
 
 Eliminate ==
   /\ STVStage /\ Above = {} /\ Cardinality(cur) # SeatsLeft
@@ -134,7 +136,7 @@ Eliminate ==
            /\ plabel' = IF Cardinality(L) > 1 THEN TieProb(L, "first_place", sc) ELSE R(1)
            /\ rounds' = Append(rounds, TallyRound(<<>>, <<{c}>>, tbs, p, cur \ {c}))
   /\ status' = "running"
-  /\ UNCHANGED <<cfg, cands, prof0, sprof0, scands, thr, stage>>
+  /\ UNCHANGED <<vorder, cfg, cands, prof0, sprof0, scands, thr, stage>>
 
 \* ------------------------------------------------------------------ one-shot positional rules
 OneShotElect ==
@@ -142,7 +144,7 @@ OneShotElect ==
   /\ \E o \in ElectTop(LastR.remaining, cfg.m, cfg.tb, TbScore(cfg.tb, prof, cur)) :
        IF o.err
        THEN /\ status' = "ValueError" /\ plabel' = R(1)
-            /\ UNCHANGED <<cfg, cands, prof0, sprof0, scands, prof, cur, thr, rounds, stage>>
+            /\ UNCHANGED <<vorder, cfg, cands, prof0, sprof0, scands, prof, cur, thr, rounds, stage>>
        ELSE LET W == UNION Range(o.elected)
                 p == RemoveCands(prof, W)
             IN /\ prof' = p /\ cur' = cur \ W
@@ -150,7 +152,7 @@ OneShotElect ==
                             ELSE LET T == (CHOOSE t \in o.tbs : TRUE)[1] IN TieProb(T, cfg.tb, TbScore(cfg.tb, prof, cur))
                /\ rounds' = Append(rounds, Round(o.elected, <<>>, o.remaining, o.tbs, SF(p, cur \ W), p))
                /\ status' = "finished"
-               /\ UNCHANGED <<cfg, cands, prof0, sprof0, scands, thr, stage>>
+               /\ UNCHANGED <<vorder, cfg, cands, prof0, sprof0, scands, thr, stage>>
 
 \* ------------------------------------------------------------------ pairwise rules
 TieredElect ==
@@ -172,7 +174,7 @@ TieredElect ==
                           ELSE LET T == (CHOOSE x \in o.tbs : TRUE)[1] IN TieProb(T, "borda", Borda(prof, cur))
              /\ rounds' = Append(rounds, Round(o.elected, <<>>, o.remaining, o.tbs, Borda(p, cur \ W), p))
              /\ status' = "finished"
-  /\ UNCHANGED <<cfg, cands, prof0, sprof0, scands, thr, stage>>
+  /\ UNCHANGED <<vorder, cfg, cands, prof0, sprof0, scands, thr, stage>>
 
 \* ------------------------------------------------------------------ composites: the plurality cut
 CutSize == IF cfg.rule = "TopTwo" THEN 2 ELSE cfg.m1
@@ -180,11 +182,11 @@ Cut ==
   /\ status = "running" /\ stage = "cut" /\ cfg.rule \in Composite
   /\ IF CutSize > Cardinality(cur)
      THEN /\ status' = "ValueError" /\ plabel' = R(1)
-          /\ UNCHANGED <<cfg, cands, prof0, sprof0, scands, prof, cur, thr, rounds, stage>>
+          /\ UNCHANGED <<vorder, cfg, cands, prof0, sprof0, scands, prof, cur, thr, rounds, stage>>
      ELSE \E o \in ElectTop(LastR.remaining, CutSize, cfg.tb, TbScore(cfg.tb, prof, cur)) :
        IF o.err
        THEN /\ status' = "ValueError" /\ plabel' = R(1)
-            /\ UNCHANGED <<cfg, cands, prof0, sprof0, scands, prof, cur, thr, rounds, stage>>
+            /\ UNCHANGED <<vorder, cfg, cands, prof0, sprof0, scands, prof, cur, thr, rounds, stage>>
        ELSE LET keep == UNION Range(o.elected)
                 p    == RemoveCands(prof, cur \ keep)
             IN /\ prof' = p /\ cur' = keep /\ sprof0' = p /\ scands' = keep
@@ -193,14 +195,14 @@ Cut ==
                /\ thr' = IF cfg.rule = "Alaska" THEN Threshold(Total(p), cfg.m, cfg.quota) ELSE thr
                /\ rounds' = Append(rounds, Round(<<>>, o.remaining, o.elected, o.tbs, Fpv(p, keep), p))
                /\ stage' = "main" /\ status' = "running"
-               /\ UNCHANGED <<cfg, cands, prof0>>
+               /\ UNCHANGED <<vorder, cfg, cands, prof0>>
 (* TopTwo runoff: Plurality(1) on the reduced profile *)
 Runoff ==
   /\ status = "running" /\ stage = "main" /\ cfg.rule = "TopTwo"
   /\ \E o \in ElectTop(Group(Fpv(prof, cur), cur), 1, cfg.tb, TbScore(cfg.tb, prof, cur)) :
        IF o.err
        THEN /\ status' = "ValueError" /\ plabel' = R(1)
-            /\ UNCHANGED <<cfg, cands, prof0, sprof0, scands, prof, cur, thr, rounds, stage>>
+            /\ UNCHANGED <<vorder, cfg, cands, prof0, sprof0, scands, prof, cur, thr, rounds, stage>>
        ELSE LET W == UNION Range(o.elected)
                 p == RemoveCands(prof, W)
             IN /\ prof' = p /\ cur' = cur \ W
@@ -208,7 +210,7 @@ Runoff ==
                             ELSE LET T == (CHOOSE t \in o.tbs : TRUE)[1] IN TieProb(T, cfg.tb, TbScore(cfg.tb, prof, cur))
                /\ rounds' = Append(rounds, Round(o.elected, <<>>, o.remaining, o.tbs, Fpv(p, cur \ W), p))
                /\ status' = "finished"
-               /\ UNCHANGED <<cfg, cands, prof0, sprof0, scands, thr, stage>>
+               /\ UNCHANGED <<vorder, cfg, cands, prof0, sprof0, scands, thr, stage>>
 
 \* ------------------------------------------------------------------ randomised rules
 (* RandomDictator draw: a ballot with probability weight/total; a tied first place is resolved uniformly *)
@@ -225,7 +227,7 @@ DictatorRound(w, tbs, pr) ==
   /\ prof' = p /\ cur' = cur \ {w} /\ plabel' = pr
   /\ rounds' = Append(rounds, TallyRound(<<{w}>>, <<>>, tbs, p, cur \ {w}))
   /\ status' = IF Cardinality(ElectedSoFar') >= cfg.m THEN "finished" ELSE "running"
-  /\ UNCHANGED <<cfg, cands, prof0, sprof0, scands, thr, stage>>
+  /\ UNCHANGED <<vorder, cfg, cands, prof0, sprof0, scands, thr, stage>>
 DictatorDraw ==
   /\ status = "running" /\ cfg.rule = "RandomDictator" /\ DOMAIN prof # {}
   /\ \E o \in DictatorOutcomes(prof) : DictatorRound(o[1], o[2], DictatorProb(prof, o[1], o[2]))
@@ -248,15 +250,51 @@ LastCandidate ==
   /\ (cfg.rule = "RandomDictator" => DOMAIN prof = {})
   /\ DictatorRound(CHOOSE w \in cur : TRUE, {}, R(1))
 
-(* PluralityVeto, abstractly: while more than m candidates stand, a round eliminates a non-empty set of *)
-(* them and leaves at least m; with exactly m standing they are all elected.                          *)
+(* PluralityVeto as implemented (its documentation fixes little; the model follows the code and names what it does):              *)
+(* the voters -- unit ballots -- are asked in the stored order; a voter whose ballot still ranks somebody vetoes the last candidate *)
+(* of the ballot (a tied last position is resolved by the requested tiebreak and the *last* such resolution of the round is        *)
+(* recorded); a veto takes one point off the candidate's current first-place tally; the first candidate to reach zero is           *)
+(* eliminated and the round ends; in the first round every candidate without first-place votes goes out as well; the next round    *)
+(* starts with the voter after the one whose veto ended this round, and tallies are recomputed from the reduced ballots.           *)
+RECURSIVE VetoWalk(_,_,_,_)
+VetoWalk(order, i, sc, acc) ==
+  IF i > Len(order) THEN {[E |-> acc.E, idx |-> Len(order), tbs |-> acc.tbs]}
+  ELSE IF order[i] = <<>> THEN VetoWalk(order, i + 1, sc, acc)
+  ELSE LET T == order[i][Len(order[i])] IN
+       UNION { LET lp   == o[Len(o)]
+                   tbs2 == IF Cardinality(T) > 1 THEN {<<T, Singles(o)>>} ELSE acc.tbs
+                   sc2  == [sc EXCEPT ![lp] = RSub(@, R(1))]
+               IN IF RLe(sc2[lp], R(0)) THEN {[E |-> acc.E \cup {lp}, idx |-> i, tbs |-> tbs2]}
+                  ELSE VetoWalk(order, i + 1, sc2, [E |-> acc.E, tbs |-> tbs2])
+             : o \in Resolutions(T, IF cfg.tb = "none" THEN "random" ELSE cfg.tb, TbScore(cfg.tb, prof, cur)) }
+RotateStrip(order, idx, E) == [j \in 1..Len(order) |-> Strip(order[((idx + j - 1) % Len(order)) + 1], E)]
 VetoEliminate ==
   /\ status = "running" /\ cfg.rule = "PluralityVeto" /\ Cardinality(cur) > cfg.m
-  /\ \E E \in (SUBSET cur) \ {{}} :
-       /\ Cardinality(cur \ E) >= cfg.m
-       /\ \E p \in {RemoveCands(prof, E)} :
-          /\ prof' = p /\ cur' = cur \ E /\ plabel' = R(0)
-          /\ rounds' = Append(rounds, TallyRound(<<>>, <<E>>, {}, p, cur \ E))
+  /\ LET zero == IF Len(rounds) = 1 THEN {c \in DOMAIN LastR.scores : RLe(LastR.scores[c], R(0))} ELSE {}
+     IN \E w \in VetoWalk(vorder, 1, LastR.scores, [E |-> zero, tbs |-> {}]) :
+          /\ w.E # {} /\ Cardinality(cur \ w.E) >= cfg.m   \* somebody goes out, never below the seats (violated by the code: KF_veto_below)
+          /\ LET p == RemoveCands(prof, w.E)  C == cur \ w.E IN
+             /\ prof' = p /\ cur' = cur \ w.E /\ plabel' = R(0)
+             /\ vorder' = IF Len(vorder) = 0 THEN <<>> ELSE RotateStrip(vorder, w.idx, w.E)
+             /\ rounds' = Append(rounds, Round(<<>>, IF w.E = {} THEN <<>> ELSE <<w.E>>, Group(Fpv(p, C), C), w.tbs, Fpv(p, C), p))
+  /\ status' = "running"
+  /\ UNCHANGED <<cfg, cands, prof0, sprof0, scands, thr, stage>>
+(* When every veto walk would leave fewer than m candidates (e.g. more than n - m candidates without first-place votes in   *)
+(* round 1) the implemented rule has no admissible step (recorded finding KF_veto_below: the code eliminates anyway and never *)
+(* finishes).  The specification requires *some* elimination that keeps m candidates, so that C01 (exactly m winners,         *)
+(* termination) is a property of the design; which one is left open.                                                          *)
+VetoShort ==
+  /\ status = "running" /\ cfg.rule = "PluralityVeto" /\ Cardinality(cur) > cfg.m
+  /\ LET zero == IF Len(rounds) = 1 THEN {c \in DOMAIN LastR.scores : RLe(LastR.scores[c], R(0))} ELSE {}
+         walks == VetoWalk(vorder, 1, LastR.scores, [E |-> zero, tbs |-> {}])
+     IN /\ \A w \in walks : w.E = {} \/ Cardinality(cur \ w.E) < cfg.m
+        /\ \E w \in walks : \E E \in (SUBSET cur) \ {{}} :
+             /\ (w.E # {} => E \subseteq w.E)
+             /\ Cardinality(cur \ E) >= cfg.m
+             /\ LET p == RemoveCands(prof, E)  C == CandsCast(p) IN
+                /\ prof' = p /\ cur' = cur \ E /\ plabel' = R(0)
+                /\ vorder' = IF Len(vorder) = 0 THEN <<>> ELSE RotateStrip(vorder, w.idx, E)
+                /\ rounds' = Append(rounds, Round(<<>>, <<E>>, Group(Fpv(p, cur \ E), cur \ E), w.tbs, Fpv(p, cur \ E), p))
   /\ status' = "running"
   /\ UNCHANGED <<cfg, cands, prof0, sprof0, scands, thr, stage>>
 VetoElect ==
@@ -264,16 +302,16 @@ VetoElect ==
   /\ prof' = NoBallots /\ cur' = {} /\ plabel' = R(1)
   /\ rounds' = Append(rounds, Round(LastR.remaining, <<>>, <<>>, {}, <<>>, NoBallots))
   /\ status' = "finished"
-  /\ UNCHANGED <<cfg, cands, prof0, sprof0, scands, thr, stage>>
+  /\ UNCHANGED <<vorder, cfg, cands, prof0, sprof0, scands, thr, stage>>
 
 Next == \/ ElectSimul \/ ElectOne \/ DefaultElect \/ Eliminate
         \/ OneShotElect \/ TieredElect \/ Cut \/ Runoff
         \/ DictatorDraw \/ DictatorExhausted \/ BoostedDraw \/ LastCandidate
-        \/ VetoEliminate \/ VetoElect
+        \/ VetoEliminate \/ VetoShort \/ VetoElect
 
 (* start of a count: configuration c on bag p over candidate set C -- the value of every variable *)
-StartRec(c, p, C) ==
-  [cfg |-> c, cands |-> C, prof0 |-> p, sprof0 |-> p, scands |-> C, prof |-> p, cur |-> C,
+StartRec(c, p, C, vo) ==
+  [vorder |-> vo, cfg |-> c, cands |-> C, prof0 |-> p, sprof0 |-> p, scands |-> C, prof |-> p, cur |-> C,
    thr |-> IF c.rule \in STVFamily THEN Threshold(Total(p), IF c.rule = "IRV" THEN 1 ELSE c.m, c.quota) ELSE 0,
    stage |-> IF c.rule \in Composite THEN "cut" ELSE "main",
    status |-> "running", plabel |-> R(1),
@@ -282,12 +320,12 @@ StartRec(c, p, C) ==
                                    [] c.rule = "CondoBorda" -> Borda(p, C)
                                    [] OTHER -> Fpv(p, C))
                       IN Round(<<>>, <<>>, Group(sc, C), {}, sc, p) >>]
-StartInit(c, p, C) == LET s == StartRec(c, p, C) IN
+StartInit(c, p, C, vo) == LET s == StartRec(c, p, C, vo) IN
   /\ cfg = s.cfg /\ cands = s.cands /\ prof0 = s.prof0 /\ sprof0 = s.sprof0 /\ scands = s.scands /\ prof = s.prof
-  /\ cur = s.cur /\ thr = s.thr /\ stage = s.stage /\ status = s.status /\ plabel = s.plabel /\ rounds = s.rounds
-StartNext(c, p, C) == LET s == StartRec(c, p, C) IN
+  /\ cur = s.cur /\ thr = s.thr /\ stage = s.stage /\ status = s.status /\ plabel = s.plabel /\ rounds = s.rounds /\ vorder = s.vorder
+StartNext(c, p, C, vo) == LET s == StartRec(c, p, C, vo) IN
   /\ cfg' = s.cfg /\ cands' = s.cands /\ prof0' = s.prof0 /\ sprof0' = s.sprof0 /\ scands' = s.scands /\ prof' = s.prof
-  /\ cur' = s.cur /\ thr' = s.thr /\ stage' = s.stage /\ status' = s.status /\ plabel' = s.plabel /\ rounds' = s.rounds
+  /\ cur' = s.cur /\ thr' = s.thr /\ stage' = s.stage /\ status' = s.status /\ plabel' = s.plabel /\ rounds' = s.rounds /\ vorder' = s.vorder
 
 \* ------------------------------------------------------------------ probability labels (C17, C10, C03)
 SumOver(S, F(_)) == FoldSet(LAMBDA x, acc : RAdd(F(x), acc), R(0), S)
